@@ -14,10 +14,12 @@ import (
 
 // Step is one director action of a scenario.
 //
-//	sub     subscribe subscriber H (tags are given in order of sub steps) with reader Kind
-//	        (prompt | slow | stalled); waits up to 200 ms for Subscribe to return, then goes on
+//	sub     one Subscribe call with Chans channels (default 1; tags are given consecutively in order
+//	        of sub steps) and readers of the given kinds (prompt | slow | stalled); waits up to
+//	        200 ms for Subscribe to return, then goes on
 //	bgo     start goroutine G broadcasting N values G*1000+First .. sequentially
-//	cancel  cancel the context of subscriber H (skipped unless its Subscribe returned)
+//	cancel  cancel the context of the Subscribe call that registered subscriber H (all its channels;
+//	        skipped unless that Subscribe returned)
 //	wake    a stalled reader starts reading promptly
 //	close   start N goroutines calling Close
 //	settle  sleep N milliseconds
@@ -27,6 +29,10 @@ type Step struct {
 	Op    string `json:"op"`
 	H     int    `json:"h,omitempty"`
 	Kind  string `json:"kind,omitempty"`
+	// sub only: Subscribe(ctx, ch1 … chN) with one context; reader kinds per channel (Kind for all
+	// channels when Kinds is empty); the channels get consecutive tags, H is the first
+	Chans int      `json:"chans,omitempty"`
+	Kinds []string `json:"kinds,omitempty"`
 	G     int    `json:"g,omitempty"`
 	First int    `json:"first,omitempty"`
 	N     int    `json:"n,omitempty"`
@@ -52,6 +58,12 @@ func (e Ev) Line() string {
 		return fmt.Sprintf("ev k=bacq v=%d", e.V)
 	case "bret":
 		return fmt.Sprintf("ev k=bret t=%d", e.A)
+	case "scall":
+		n := e.V
+		if n == 0 {
+			n = 1
+		}
+		return fmt.Sprintf("ev k=scall n=%d", n)
 	case "sret":
 		return fmt.Sprintf("ev k=sret h=%d", e.A)
 	case "cancel":
@@ -70,6 +82,8 @@ type call struct {
 }
 
 type subRec struct {
+	first     int // tag of the first channel of its Subscribe call
+	nchan     int
 	tag       int
 	kind      string
 	ch        chan int
@@ -92,6 +106,7 @@ type world struct {
 	stop     chan struct{}
 	wg       sync.WaitGroup
 	panics   []string
+	cancels  []context.CancelFunc
 }
 
 // Outcome of executing a scenario against the real code.
@@ -250,27 +265,47 @@ func Execute(sc Scenario, deadline time.Duration) Outcome {
 	for i, st := range sc.Steps {
 		switch st.Op {
 		case "sub":
+			n := st.Chans
+			if n < 1 {
+				n = 1
+			}
 			ctx, cancel := context.WithCancel(context.Background())
-			s := &subRec{tag: len(w.subs), kind: st.Kind, ch: make(chan int), cancel: cancel, wake: make(chan struct{})}
-			c := &call{kind: "subscribe", id: s.tag, done: make(chan struct{})}
+			w.cancels = append(w.cancels, cancel)
+			first := len(w.subs)
+			var group []*subRec
+			var chans []chan<- int
+			for k := 0; k < n; k++ {
+				kind := st.Kind
+				if k < len(st.Kinds) {
+					kind = st.Kinds[k]
+				}
+				s := &subRec{first: first, nchan: n, tag: first + k, kind: kind, ch: make(chan int), cancel: cancel, wake: make(chan struct{})}
+				group = append(group, s)
+				chans = append(chans, s.ch)
+			}
+			c := &call{kind: "subscribe", id: first, done: make(chan struct{})}
 			w.mu.Lock()
-			w.subs = append(w.subs, s)
+			w.subs = append(w.subs, group...)
 			w.calls = append(w.calls, c)
-			w.log(Ev{K: "scall", A: s.tag})
+			w.log(Ev{K: "scall", A: first, V: n})
 			w.mu.Unlock()
-			w.wg.Add(1)
+			w.wg.Add(n)
 			go func() {
-				defer w.guard("Subscribe")
 				func() {
 					defer w.guard("Subscribe")
-					w.b.Subscribe(ctx, s.ch)
+					w.b.Subscribe(ctx, chans...)
 				}()
 				w.mu.Lock()
-				s.returned = true
-				w.log(Ev{K: "sret", A: s.tag})
+				for _, s := range group {
+					s.returned = true
+				}
+				w.log(Ev{K: "sret", A: first})
 				w.mu.Unlock()
 				close(c.done)
-				w.reader(s)
+				for _, s := range group[1:] {
+					go w.reader(s)
+				}
+				w.reader(group[0])
 			}()
 			select {
 			case <-c.done:
@@ -310,8 +345,10 @@ func Execute(sc Scenario, deadline time.Duration) Outcome {
 			if st.H < len(w.subs) && w.subs[st.H].returned && !w.subs[st.H].cancelled {
 				s := w.subs[st.H]
 				s.cancel()
-				s.cancelled = true
-				w.log(Ev{K: "cancel", A: s.tag})
+				for k := s.first; k < s.first+s.nchan; k++ {
+					w.subs[k].cancelled = true
+				}
+				w.log(Ev{K: "cancel", A: s.first})
 			} else {
 				out.Skipped++
 			}
